@@ -346,6 +346,88 @@ func namedConst(l *loaded, pkg, name string) (int64, bool) {
 	return v, exact
 }
 
+// identifierQuoteGuard recognises
+//
+//	l := len(id)
+//	if l > K && id[0] == '"' { return Identifier{id: id[1 : l-1], ignoreCase: false} } else { return Identifier{id: id, ignoreCase: true} }
+//
+// and returns K.
+func identifierQuoteGuard(l *loaded) (int64, bool) {
+	fd, p := l.funcDecl("parser", "", "IdentifierFromString")
+	if fd == nil || fd.Body == nil || len(fd.Body.List) != 2 {
+		return 0, false
+	}
+	as, ok := fd.Body.List[0].(*ast.AssignStmt)
+	if !ok || len(as.Lhs) != 1 || len(as.Rhs) != 1 {
+		return 0, false
+	}
+	lv, ok := as.Lhs[0].(*ast.Ident)
+	call, ok2 := as.Rhs[0].(*ast.CallExpr)
+	if !ok || !ok2 {
+		return 0, false
+	}
+	if fn, ok := call.Fun.(*ast.Ident); !ok || fn.Name != "len" || len(call.Args) != 1 {
+		return 0, false
+	}
+	idName, ok := call.Args[0].(*ast.Ident)
+	if !ok {
+		return 0, false
+	}
+	ifs, ok := fd.Body.List[1].(*ast.IfStmt)
+	if !ok || ifs.Init != nil || ifs.Else == nil {
+		return 0, false
+	}
+	and, ok := ifs.Cond.(*ast.BinaryExpr)
+	if !ok || and.Op != token.LAND {
+		return 0, false
+	}
+	gt, ok := and.X.(*ast.BinaryExpr)
+	if !ok || gt.Op != token.GTR {
+		return 0, false
+	}
+	if x, ok := gt.X.(*ast.Ident); !ok || x.Name != lv.Name {
+		return 0, false
+	}
+	k, ok := constInt(p, gt.Y)
+	if !ok {
+		return 0, false
+	}
+	eq, ok := and.Y.(*ast.BinaryExpr)
+	if !ok || eq.Op != token.EQL {
+		return 0, false
+	}
+	ix, ok := eq.X.(*ast.IndexExpr)
+	if !ok {
+		return 0, false
+	}
+	if x, ok := ix.X.(*ast.Ident); !ok || x.Name != idName.Name {
+		return 0, false
+	}
+	if i, ok := constInt(p, ix.Index); !ok || i != 0 {
+		return 0, false
+	}
+	if q, ok := constInt(p, eq.Y); !ok || q != 34 {
+		return 0, false
+	}
+	// the then-branch slices id[1 : l-1]
+	found := false
+	ast.Inspect(ifs.Body, func(n ast.Node) bool {
+		if se, ok := n.(*ast.SliceExpr); ok {
+			lo, ok1 := constInt(p, se.Low)
+			hi, ok2 := se.High.(*ast.BinaryExpr)
+			if ok1 && lo == 1 && ok2 && hi.Op == token.SUB {
+				if hx, ok := hi.X.(*ast.Ident); ok && hx.Name == lv.Name {
+					if one, ok := constInt(p, hi.Y); ok && one == 1 {
+						found = true
+					}
+				}
+			}
+		}
+		return true
+	})
+	return k, found
+}
+
 // token enum: all constants of type parser.token in declaration (value) order
 func tokenEnum(l *loaded) ([]entry, bool) {
 	p := l.pkgs["parser"]
@@ -430,6 +512,16 @@ func main() {
 		fmt.Fprintf(&sb, "Definition max_streams : N := %d%%N.\n\n", v)
 	} else {
 		decline("max_streams", "proxycore.MaxStreams is not a constant")
+	}
+	if v, ok := namedConst(l, "parser", "maxNestingDepth"); ok && v > 0 && v < 100000 {
+		fmt.Fprintf(&sb, "Definition max_nesting_depth : N := %d%%N.\n\n", v)
+	} else {
+		decline("max_nesting_depth", "parser.maxNestingDepth is not a small positive constant")
+	}
+	if g, ok := identifierQuoteGuard(l); ok {
+		fmt.Fprintf(&sb, "(* parser.IdentifierFromString: the string is sliced as a quoted identifier when len(id) > identifier_quote_guard and id[0] is a double quote *)\nDefinition identifier_quote_guard : Z := %d%%Z.\n\n", g)
+	} else {
+		decline("identifier_quote_guard", "parser.IdentifierFromString is not `l := len(id); if l > K && id[0] == '\"' { return Identifier{id: id[1 : l-1], ...} } else {...}`")
 	}
 	if es, ok := tokenEnum(l); ok {
 		emitEntries(&sb, "token_enum", es)
